@@ -489,3 +489,19 @@ Theorem C03_breaks_instance :
   bline_okb ($"ends in a space ", 2%nat) = false.
 Proof. exact breaks_instance. Qed.
 Print Assumptions C03_breaks_instance.
+
+(* ... and such a paragraph is a LEAF of the fragment (FBrk: lines each followed by any number of spaces), at every nesting depth: the block
+   phase accepts lines whatever they end in (Proofs/BreakBlocks.v: the paragraph reader asks only for the first character and the absence
+   of a pipe), Paragraph's stripping keeps the inner spaces, the tokens are C03_breaks_in_paragraph_text's, the HTML ends a line followed
+   by two spaces or more in <br /> (brk_html), the Markdown round trip writes the spaces back *)
+Theorem C03_fragment_breaks_instance :
+  let t := FQuote [FBrk 102 $"irst" 2 [($"second, soft", 0%nat); ($"third", 3%nat); ($"last.", 0%nat)];
+                   FMore (MBullet 45) 1 [FBrk 97 [] 2 [($"b", 0%nat)]] false (FItem (MBullet 45) 1 [FPara 122 [] []])] in
+  wf_b t = true /\
+  text_of (spell t) = [ $"> first  " ++ [10%Z]; $"> second, soft" ++ [10%Z]; $"> third   " ++ [10%Z]; $"> last." ++ [10%Z]; $"> " ++ [10%Z];
+                        $"> - a  " ++ [10%Z]; $">   b" ++ [10%Z]; $"> - z" ++ [10%Z] ] /\
+  html_f (mkHopts false false) false (FBrk 102 $"irst" 2 [($"second, soft", 0%nat); ($"third", 3%nat); ($"last.", 0%nat)]) =
+    $"<p>first<br />" ++ [10%Z] ++ $"second, soft" ++ [10%Z] ++ $"third<br />" ++ [10%Z] ++ $"last.</p>" /\
+  wf_b (FBrk 97 $" " 2 [($"b", 0%nat)]) = false.
+Proof. vm_compute. repeat split; reflexivity. Qed.
+Print Assumptions C03_fragment_breaks_instance.
